@@ -69,6 +69,7 @@ type LResponse struct {
 	HasStatus     bool
 	HasStatusCode bool
 	StatusCode    string
+	SubStatusCode *string // second-level StatusCode nested inside the first
 	Assertions    []*LAssertion
 	NameID        *string // LogoutRequest
 	SessionIndex  *string // LogoutRequest
